@@ -14,6 +14,7 @@ import os, re, sys, json, time, argparse, hashlib
 
 sys.path.insert(0, os.path.dirname(os.path.abspath(__file__)))
 import vrun
+import krun
 
 VERIF = vrun.VERIF
 def load_registry():
@@ -92,10 +93,11 @@ def main():
     units = [(n, u["template"]) for n, u in REG["units"].items()
              if pid in u["properties"] and u.get("engine", "verus") == "verus"
              and (a.tier == "thorough" or not u.get("thorough_only"))]
-    if not units:
+    kani_files = [hf for hf in krun.harness_files() if pid in hf["props"]]
+    if not units and not kani_files:
         print("no units registered for", pid)
         return 2
-    results = vrun.run_units(units)
+    results = vrun.run_units(units) if units else []
     known = [k for k in load_known() if k["property"] == pid]
     base_p = os.path.join(VERIF, "baseline", "obligations.json")
     baseline = json.load(open(base_p)) if os.path.exists(base_p) else {}
@@ -164,6 +166,30 @@ def main():
         per_unit.append(dict(unit=uname, engine="verus", backend="z3", status=r["status"], obligations=n_obl,
                              solver_s=round(r["solver_s"], 3), wall_s=round(r.get("wall_s", 0), 2),
                              canary=r["canary"], bounded=None))
+    # ---- Engine K -----------------------------------------------------------------------------
+    kani_results, kani_note = krun.run(pid, a.tier) if kani_files else ([], None)
+    bounded_checks = []
+    kviol = []
+    for kr in kani_results:
+        ob = "K:%s::%s" % (kr["file"], kr["harness"])
+        entry = dict(unit=ob, engine="kani", backend="cbmc+cadical", status=kr["status"], obligations=1,
+                     solver_s=round(kr["time_s"], 2), bounded=kr["bounded"], doc=kr["doc"])
+        per_unit.append(entry)
+        if kr["status"] == "undecided":
+            undecided.append("%s: %s" % (ob, kr.get("reason", "")))
+            continue
+        if kr["bounded"]:
+            bounded_checks.append(dict(obligation=ob, bound=kr["bounded"], status=kr["status"]))
+        else:
+            obligations.append(ob)
+            if kr["status"] == "ok":
+                discharged.append(ob)
+        if kr["status"] == "violated":
+            kf = [k for k in known if k["obligation"] == ob and any(norm(k.get("clause", "")) in norm(fc) for fc in kr["failed_checks"])]
+            if kf:
+                known_hits.append((kf[0], ob, dict(clause="; ".join(kr["failed_checks"]), text=kr["output"], kind="kani assertion")))
+            else:
+                kviol.append((ob, kr))
     # ---- assumptions: mechanical scan of everything that was verified --------------------------
     scan = {"assume_specification": 0, "external_body": 0, "assume(": 0, "admit(": 0, "axiom ": 0}
     for r in results:
@@ -194,6 +220,22 @@ def main():
                 r.get("generated"), "; ".join(r["stats"]["sources"]), f["text"]))
         out_lines.append("VIOLATION property=%s replay=%s obligation=%s kind=%s no-failing-input-found" % (pid, rp, ob, f["kind"].replace(" ", "-")))
         exit_code = 1
+    for (ob, kr) in kviol:
+        rp = os.path.join(VERIF, "replay", pid, re.sub(r"\W+", "_", ob) + ".rs")
+        with open(rp, "w") as fh:
+            fh.write("// property: %s\n// failed obligation: %s  (%s)\n// failed checks: %s\n" % (pid, ob, kr["doc"], "; ".join(kr["failed_checks"])))
+            fh.write("// native replay of the counterexample on the real code: %s\n" % kr.get("native_replay", "not run"))
+            if kr.get("playback"):
+                fh.write("// Counterexample found by CBMC, as a unit test that re-runs the harness body (real rxRust code)\n"
+                         "// with the concrete values (run with `cargo kani playback -Z concrete-playback`):\n\n" + kr["playback"] + "\n")
+            fh.write("\n/* --- verifier output ---\n%s\n*/\n" % kr["output"].replace("*/", "* /"))
+            if kr.get("native_output"):
+                fh.write("\n/* --- native replay output ---\n%s\n*/\n" % kr["native_output"].replace("*/", "* /"))
+        confirmed = "FAILED natively" in kr.get("native_replay", "")
+        out_lines.append("VIOLATION property=%s replay=%s obligation=%s kind=kani-assertion%s" % (
+            pid, rp, ob, " counterexample-replayed-on-real-code" if confirmed else " no-failing-input-found"))
+        seen.add((ob, "kani"))
+        exit_code = 1
     if undecided and exit_code == 0:
         exit_code = 2
     # vacuity / guards
@@ -204,6 +246,7 @@ def main():
     props = [json.loads(l) for l in open(os.path.join(VERIF, "properties.jsonl"))]
     trusted = [
         "Verus 0.2026.09.13 + Z3 (soundness of the verifier)",
+        "Kani 0.68 + CBMC 6.11 + cadical for the K: obligations (loop-free full-domain harnesses count as proved; harnesses marked bounded are listed under bounded_checks and are NOT counted in obligations/discharged)",
         "contract vocabulary /verif/contracts/prelude.rs (definitions; recorder/delivered witnesses rest on linearity and parametricity of generic by-value observers)",
         "extraction rules R1-R10 of engine/extract.py (syntactic; counted below)",
         "one-handle stand-in for MutRc/MutArc: aliasing between clones and borrow/lock acquisition are not modelled",
@@ -221,6 +264,8 @@ def main():
             extracted_items=sorted(set(sources)),
             assumption_scan=scan,
             known_findings_reported=[k["what"] for (k, ob, f) in known_hits],
+            bounded_checks=bounded_checks,
+            kani_note=kani_note,
             undecided=undecided,
             explanation="each obligation is one real rxRust function (text extracted from /repo on this run) verified against its contract, or one Layer-2 lemma over the contracts' spec functions",
         ),
